@@ -18,6 +18,7 @@ type lockDecl struct {
 	invs    []*Clause
 	havoc   []Expr
 	stutter Expr
+	rely    Expr
 	conds   map[string]bool // condition-variable fields tied to this mutex
 }
 
@@ -79,6 +80,21 @@ func (P *Program) lockDecls() map[string]*lockDecl {
 			if ld := P.locks[short+"."+st+"."+fl]; ld != nil {
 				if e, err := ParseExpr(strings.TrimSpace(raw[eq+3:])); err == nil {
 					ld.stutter = e
+				}
+			}
+		}
+		for _, raw := range cf.Raw["lockrely"] {
+			eq := strings.Index(raw, " = ")
+			if eq < 0 {
+				continue
+			}
+			st, fl, _, ok := parseHead(raw[:eq])
+			if !ok {
+				continue
+			}
+			if ld := P.locks[short+"."+st+"."+fl]; ld != nil {
+				if e, err := ParseExpr(strings.TrimSpace(raw[eq+3:])); err == nil {
+					ld.rely = e
 				}
 			}
 		}
@@ -218,6 +234,10 @@ func (x *Exec) leaveSection(cfg *Config, ld *lockDecl, o *origin, why string, po
 	for _, inv := range ld.invs {
 		x.obligeInv(cfg, env, inv.E, "lockinv-"+why, ld.strct+"."+ld.field+": ", inv.Props, pos, 0)
 	}
+	if ld.rely != nil && x.c != nil && x.c.Options["old"] == "section" {
+		// guarantee = rely: what this section did is something others may rely on
+		x.oblige(cfg, "lock-guarantee", ld.strct+"."+ld.field+": "+ld.rely.exprString(), x.specBool(env, ld.rely), nil, pos)
+	}
 }
 
 // obligeInv emits one obligation per conjunct, expanding predicate calls so
@@ -331,7 +351,13 @@ func (x *Exec) condWait(cfg *Config, cv Val, pos token.Pos) {
 		x.oblige(cfg, "stutter-before-wait", ld.strct+"."+ld.field+": "+ld.stutter.exprString(), x.specBool(env, ld.stutter), nil, pos)
 	}
 	x.leaveSection(cfg, ld, m.Org, "wait", pos)
+	parkState := cfg.st.clone()
 	x.enterSection(cfg, ld, m.Org)
+	if ld.rely != nil {
+		env := x.lockEnv(cfg, ld, m.Org)
+		env.old = parkState
+		cfg.st.assume(x.specBool(env, ld.rely))
+	}
 	x.wakeResume(cfg, tv, ld, m.Org, pos)
 }
 
@@ -349,6 +375,31 @@ func (x *Exec) spawn(cfg *Config, f *Frame, tg target, args []Val, pos token.Pos
 	if tg.fn != nil && x.isCtxWatcher(tg.fn) {
 		cfg.st.watchers = append(cfg.st.watchers, &watcher{tg: tg, args: args})
 		x.usedTrusted["goroutine `<-ctx.Done(); cond.Broadcast()` modelled as running when its context is cancelled by this function"] = true
+		return
+	}
+	if x.c != nil && x.c.Options["spawn-requires"] != "" {
+		// ghost accounting at the go statement (e.g. a WaitGroup increment
+		// must have happened before the goroutine that will call Done starts)
+		env := x.entryEnv(cfg)
+		env.frame = nil
+		env.old = cfg.old
+		e, err := ParseExpr(x.c.Options["spawn-requires"])
+		if err != nil {
+			unsupported("option spawn-requires: %v", err)
+		}
+		x.oblige(cfg, "spawn-pre", tg.name+": "+x.c.Options["spawn-requires"], x.specBool(env, e), nil, pos)
+		if gs := x.c.Options["spawn-ghost"]; gs != "" {
+			eq := strings.Index(gs, " = ")
+			cl, err := parseClause("ghostset", nil, gs[:eq]+" == ("+gs[eq+3:]+")", 0)
+			if err != nil {
+				unsupported("option spawn-ghost: %v", err)
+			}
+			x.applyGhostSet(cfg, env, cl)
+		}
+		if want := x.c.Options["spawn-body"]; want != "" && !strings.HasSuffix(tg.name, want) {
+			x.oblige(cfg, "spawn-body", "spawned function is "+tg.name+", contract expects "+want, False, nil, pos)
+		}
+		x.spawned = append(x.spawned, tg.name)
 		return
 	}
 	x.note("go statement at %s: spawned body %s is not verified as part of this function", x.posOf(pos), tg.name)
